@@ -241,6 +241,43 @@ func observeReal(cfg config) (rec, error) {
 			return nil, fmt.Errorf("ListenAndServe did not return after Shutdown")
 		}
 	}
+	expectResets := 2
+	if served {
+		// a second life of the same Service value on a new connection: it announces itself again
+		expectResets = 3
+		mu.Lock()
+		before := len(resets)
+		mu.Unlock()
+		done2 := make(chan error, 1)
+		go func() { done2 <- s.ListenAndServe(url, nats.ReconnectWait(250*time.Millisecond)) }()
+		select {
+		case <-servedCh:
+		case err := <-done2:
+			mc.Close()
+			srv.Shutdown()
+			return nil, fmt.Errorf("second ListenAndServe of the stopped service returned: %v", err)
+		case <-time.After(5 * time.Second):
+			mc.Close()
+			srv.Shutdown()
+			return nil, fmt.Errorf("second ListenAndServe did not start serving")
+		}
+		for deadline := time.Now().Add(2 * time.Second); time.Now().Before(deadline); {
+			mu.Lock()
+			n := len(resets)
+			mu.Unlock()
+			if n > before {
+				break
+			}
+			time.Sleep(2 * time.Millisecond)
+		}
+		s.Shutdown()
+		select {
+		case <-done2:
+		case <-time.After(5 * time.Second):
+			srv.Shutdown()
+			return nil, fmt.Errorf("second ListenAndServe did not return after Shutdown")
+		}
+	}
 	mc.Close()
 	srv.Shutdown()
 	mu.Lock()
@@ -252,7 +289,7 @@ func observeReal(cfg config) (rec, error) {
 	return rec{
 		"judge": "real", "sn": core.Chars(cfg.sn), "rr": chlist(cfg.rr), "ra": chlist(cfg.ra),
 		"rrnil": cfg.rr == nil, "ranil": cfg.ra == nil, "hasRes": cfg.hasRes, "hasAcc": cfg.hasAcc,
-		"queue": core.Chars(""), "subs": [][][]string{}, "resets": rs, "served": served, "probes": probes,
+		"queue": core.Chars(""), "subs": [][][]string{}, "resets": rs, "served": served, "probes": probes, "expectResets": expectResets,
 		"dbg": fmt.Sprintf("real NATS server: name=%q resources=%q access=%q hasRes=%v hasAcc=%v layout=%d", cfg.sn, cfg.rr, cfg.ra, cfg.hasRes, cfg.hasAcc, cfg.layout),
 	}, nil
 }
